@@ -34,6 +34,62 @@ fn hostile_vec<T: Decode, const L: usize>(c: usize, unk: bool) {
 	core::mem::forget(r);
 }
 
+/// the same hostile counts through the library's own wrapper inputs (memory-limited with a generous limit, counting): the
+/// wrappers must not widen what a sequence may reserve ahead of the data
+fn hostile_vec_wrapped<T: Decode, const L: usize>(c: usize, limit: usize) {
+	let bytes: [u8; L] = kani::any();
+	let len: usize = kani::any();
+	kani::assume(len <= L);
+	let mut u = Unk(&bytes[..len]);
+	let mut m = parity_scale_codec::MemTrackingInput::new(&mut u, limit);
+	let r = parity_scale_codec::decode_vec_with_len::<T, _>(&mut m, c);
+	assert!(r.is_err(), "a count promising more data than is present was accepted");
+	let mut u2 = Unk(&bytes[..len]);
+	let mut ci = parity_scale_codec::CountedInput::new(&mut u2);
+	let r2 = parity_scale_codec::decode_vec_with_len::<T, _>(&mut ci, c);
+	assert!(r2.is_err());
+	kani::cover!(true, "reach: end of harness");
+	core::mem::forget((r, r2));
+}
+with_stubs!(le_16k, #[kani::unwind(8)] pub fn c09q_wrapped_vec_opt_2p30() { hostile_vec_wrapped::<Option<u8>, 4>(1 << 30, 1 << 40) });
+with_stubs!(le_16k, #[kani::unwind(8)] pub fn c09q_wrapped_vec_tup_2p20() { hostile_vec_wrapped::<(u8, u64), 4>(1 << 20, usize::MAX) });
+with_stubs!(le_16k, #[kani::unwind(8)] pub fn c09t_wrapped_vec_u64_2p28() { hostile_vec_wrapped::<u64, 9>(1 << 28, 1 << 40) });
+/// public API form: wide elements, the largest one-byte count, generous memory limit / depth limit over an unknown-length input
+with_stubs!(le_16k, #[kani::unwind(8)] pub fn c09q_api_limits_wide_63() {
+	use parity_scale_codec::{DecodeLimit, DecodeWithMemLimit};
+	let bytes: [u8; 4] = kani::any();
+	let len: usize = kani::any();
+	kani::assume(len <= 4);
+	let r = Vec::<[u64; 64]>::decode_with_mem_limit(&mut PreUnk(Pre::count32(63, &bytes[..len])), 1 << 40);
+	assert!(r.is_err());
+	let r2 = Vec::<[u64; 64]>::decode_with_depth_limit(8, &mut PreUnk(Pre::count32(63, &bytes[..len])));
+	assert!(r2.is_err());
+	core::mem::forget((r, r2));
+});
+/// BitVec: a bit count within the cap but far beyond the data (2^29-1 bits = 64 MiB of storage, 3 payload bytes)
+#[cfg(feature = "ext")]
+with_stubs!(le_16k, #[kani::unwind(8)] pub fn c09q_bitvec_hostile_unk() {
+	use bitvec::prelude::*;
+	let bytes: [u8; 3] = kani::any();
+	let len: usize = kani::any();
+	kani::assume(len <= 3);
+	let r = BitVec::<u8, Lsb0>::decode(&mut PreUnk(Pre::count32(0x1fff_ffff, &bytes[..len])));
+	assert!(r.is_err(), "a bit count promising more data than is present was accepted");
+	core::mem::forget(r);
+});
+#[cfg(feature = "ext")]
+with_stubs!(le_64, #[kani::unwind(8)] pub fn c09q_bitvec_hostile_slice() {
+	use bitvec::prelude::*;
+	let bytes: [u8; 3] = kani::any();
+	let len: usize = kani::any();
+	kani::assume(len <= 3);
+	let r = BitVec::<u8, Lsb0>::decode(&mut Pre::count32(0x1fff_ffff, &bytes[..len]));
+	assert!(r.is_err(), "a bit count promising more data than is present was accepted");
+	let r2 = BitVec::<u32, Msb0>::decode(&mut Pre::count32(1000, &bytes[..len]));
+	assert!(r2.is_err());
+	core::mem::forget((r, r2));
+});
+
 // slice-like input (remaining length known): requests bounded by a small multiple of the input, no 16 KiB allowance needed
 with_stubs!(le_64, #[kani::unwind(8)] pub fn c09q_slice_vec_u8_max() { hostile_vec::<u8, 4>(u32::MAX as usize, false) });
 with_stubs!(le_64, #[kani::unwind(8)] pub fn c09q_slice_vec_u32_2p30() { hostile_vec::<u32, 7>(1 << 30, false) });
